@@ -19,6 +19,12 @@ def distinct(xs):
     return len(set(map(repr, xs))) == len(xs)
 
 
+def is_missing_map(e):
+    """the error of a run number for which no map exists (`MissingMap`, `MissingPreampMap`, ...) — not the error of a
+    key that is absent from an existing map (`MissingPad`, `MissingWire`), which every cell can return"""
+    return e.startswith("Missing") and e.endswith("Map")
+
+
 def run(prog, tier, res):
     spec = accept.load_spec("c08.json")
     res.explanation = ("Literal tables read from the type-checked constants (uniqueness, permutations, cross-table membership, "
@@ -105,15 +111,15 @@ def run(prog, tier, res):
         sim = [i for i in info if i["cell"] == (dispatch.U32_MAX, dispatch.U32_MAX)]
         r5000 = [i for i in info if i["cell"][0] <= 5000 <= i["cell"][1]]
         first = info[0]
-        missing_first = {e for e in first["errs"] if e.startswith("Missing")}
+        missing_first = {e for e in first["errs"] if is_missing_map(e)}
         if not sim:
             ok = False
             res.violate(R2, fn, "no-simulation-cell", "u32::MAX (simulation) is not dispatched separately from real run numbers", b.where())
         elif r5000:
             r = r5000[0]
-            r_missing = {e for e in r["errs"] if e.startswith("Missing")}
+            r_missing = {e for e in r["errs"] if is_missing_map(e)}
             if r["statics"] and not r_missing:
-                if sim[0]["statics"] != r["statics"] or {e for e in sim[0]["errs"] if e.startswith("Missing")}:
+                if sim[0]["statics"] != r["statics"] or {e for e in sim[0]["errs"] if is_missing_map(e)}:
                     ok = False
                     res.violate(R2, fn, "simulation!=5000", "simulation run selects %s but run 5000 selects %s: the simulation must map exactly like run 5000" % (
                         sorted(sim[0]["statics"]), sorted(r["statics"])), b.where())
@@ -121,7 +127,7 @@ def run(prog, tier, res):
                 # no map for run 5000: the simulation needs a dedicated outcome that no real run selects
                 others = [i for i in info if i is not sim[0]]
                 shared = sim[0]["statics"] and any(sim[0]["statics"] & i["statics"] for i in others)
-                if {e for e in sim[0]["errs"] if e.startswith("Missing")} or shared or (not sim[0]["statics"] and not sim[0]["rets"]):
+                if {e for e in sim[0]["errs"] if is_missing_map(e)} or shared or (not sim[0]["statics"] and not sim[0]["rets"]):
                     ok = False
                     res.violate(R2, fn, "simulation-map", "simulation run does not select a dedicated calibration (selects %s / errors %s)" % (
                         sorted(sim[0]["statics"]), sorted(sim[0]["errs"])), b.where())
@@ -130,7 +136,7 @@ def run(prog, tier, res):
             res.violate(R2, fn, "below-first-map", "run numbers below the first map (cell %s) do not uniformly give a Missing* error (statics %s, values %s)" % (
                 first["cell"], sorted(first["statics"]), sorted(first["rets"])), b.where())
         for i in info[1:]:
-            if {e for e in i["errs"] if e.startswith("Missing")} & missing_first and not (i["statics"] or i["rets"]):
+            if {e for e in i["errs"] if is_missing_map(e)} & missing_first and not (i["statics"] or i["rets"]):
                 ok = False
                 res.violate(R2, fn, "gap:%s" % (i["cell"],), "run numbers %s..=%s fall into a gap: only a Missing* error is possible there" % i["cell"], b.where())
         selected = set(s for i in info for s in i["statics"])
